@@ -225,6 +225,7 @@ func checkC04(r *Run) {
 	c01Grammar(r)
 	c04Alloc(r, scope)
 	c04Errors(r, scope)
+	c04Termination(r, scope)
 	c04UnknownType(r)
 }
 
@@ -519,4 +520,286 @@ func c04UnknownType(r *Run) {
 		}
 	}
 	r.Check(nErr >= 1, "unknown-type", "newMessage: unknown type bytes yield an error", nm.Pos(), "no error path for unknown message types")
+}
+
+// ---- termination: every loop on the decode path is counted or consumes input --------------------------------------
+//
+// A loop is accepted when it is (a) counted: its exit test compares an induction variable that every iteration
+// advances by a positive constant with a value fixed before the loop (this includes range loops), or (b) consuming:
+// every iteration executes a call that reads at least one byte from the decoder's input or fails — d.decode/
+// binary.Read/io.ReadFull of a target whose wire size is at least 1 — and the failure edge of that call leaves the
+// loop. Since the input is finite, (b) bounds the iteration count by the input's length.
+func c04Termination(r *Run, scope []*ssa.Function) {
+	nLoops := 0
+	for _, fn := range scope {
+		for _, h := range fn.Blocks {
+			if !isLoopHeader(h) {
+				continue
+			}
+			nLoops++
+			body := naturalLoop(h)
+			key := fmt.Sprintf("%s: loop at block %s", fnName(fn), loopDesc(r.P, h))
+			pos := token.NoPos
+			for _, in := range h.Instrs {
+				if in.Pos().IsValid() {
+					pos = in.Pos()
+					break
+				}
+			}
+			if pos == token.NoPos {
+				for b := range body {
+					for _, in := range b.Instrs {
+						if in.Pos().IsValid() && pos == token.NoPos {
+							pos = in.Pos()
+						}
+					}
+				}
+			}
+			if why, ok := countedLoop(h, body); ok {
+				r.Ok("termination", key, pos, why)
+				continue
+			}
+			if why, ok := consumingLoop(r.P, h, body); ok {
+				r.Ok("termination", key, pos, why)
+				continue
+			}
+			r.Bad("termination", key, pos, "the loop is neither counted nor guaranteed to consume input on every iteration: a crafted input can make decoding spin for ever")
+		}
+	}
+	r.Floor("termination", nLoops, 4, "loops on the decode path")
+}
+
+func loopDesc(p *Prog, h *ssa.BasicBlock) string {
+	if h.Comment != "" {
+		return h.Comment
+	}
+	return fmt.Sprintf("%d", h.Index)
+}
+
+// naturalLoop: the blocks of the natural loop(s) with header h.
+func naturalLoop(h *ssa.BasicBlock) map[*ssa.BasicBlock]bool {
+	body := map[*ssa.BasicBlock]bool{h: true}
+	var stack []*ssa.BasicBlock
+	for _, p := range h.Preds {
+		if p == h || h.Dominates(p) {
+			if !body[p] {
+				body[p] = true
+				stack = append(stack, p)
+			}
+		}
+	}
+	for len(stack) > 0 {
+		b := stack[len(stack)-1]
+		stack = stack[:len(stack)-1]
+		for _, p := range b.Preds {
+			if !body[p] {
+				body[p] = true
+				stack = append(stack, p)
+			}
+		}
+	}
+	return body
+}
+
+func definedOutside(v ssa.Value, body map[*ssa.BasicBlock]bool) bool {
+	switch x := v.(type) {
+	case *ssa.Const, *ssa.Parameter, *ssa.FreeVar, *ssa.Global:
+		return true
+	case *ssa.Call:
+		if !body[x.Block()] {
+			return true
+		}
+		// pure size getters of values fixed before the loop
+		switch calleeName(&x.Call) {
+		case "builtin len", "(reflect.Value).NumField", "(reflect.Value).Len", "invoke reflect.Type.NumField":
+			for _, a := range x.Call.Args {
+				if !definedOutside(a, body) {
+					return false
+				}
+			}
+			if x.Call.IsInvoke() && !definedOutside(x.Call.Value, body) {
+				return false
+			}
+			return true
+		}
+		return false
+	case ssa.Instruction:
+		return !body[x.Block()]
+	}
+	return false
+}
+
+// countedLoop: an exiting test `i < n` / `i != n` (any orientation) with i a header phi advanced by a positive
+// constant on every back edge and n fixed outside the loop; or go/ssa's range-over-map/string/channel `next` form.
+func countedLoop(h *ssa.BasicBlock, body map[*ssa.BasicBlock]bool) (string, bool) {
+	for b := range body {
+		ifi, ok := b.Instrs[len(b.Instrs)-1].(*ssa.If)
+		if !ok {
+			continue
+		}
+		exits := !body[b.Succs[0]] || !body[b.Succs[1]]
+		if !exits {
+			continue
+		}
+		// range over map/string: `ok` of a Next
+		if ex, ok := ifi.Cond.(*ssa.Extract); ok {
+			if _, isNext := ex.Tuple.(*ssa.Next); isNext && ex.Index == 0 {
+				return "range loop (iterator exhausted)", true
+			}
+		}
+		cmp, ok := ifi.Cond.(*ssa.BinOp)
+		if !ok {
+			continue
+		}
+		switch cmp.Op {
+		case token.LSS, token.GTR, token.LEQ, token.GEQ, token.NEQ:
+		default:
+			continue
+		}
+		for _, pair := range [][2]ssa.Value{{cmp.X, cmp.Y}, {cmp.Y, cmp.X}} {
+			iv, bound := pair[0], pair[1]
+			if !definedOutside(bound, body) {
+				continue
+			}
+			// the induction variable: a header phi, or (rotated range loops) the incremented value of one
+			var phi *ssa.Phi
+			if ph, ok := iv.(*ssa.Phi); ok && ph.Block() == h {
+				phi = ph
+			} else if add, ok := iv.(*ssa.BinOp); ok && add.Op == token.ADD {
+				if ph, ok := add.X.(*ssa.Phi); ok && ph.Block() == h {
+					phi = ph
+				}
+			}
+			if phi == nil {
+				continue
+			}
+			okStep := true
+			nBack := 0
+			for i, e := range phi.Edges {
+				pred := h.Preds[i]
+				if !(pred == h || h.Dominates(pred)) {
+					continue // entry edge
+				}
+				nBack++
+				add, ok := e.(*ssa.BinOp)
+				if !ok || add.Op != token.ADD || add.X != ssa.Value(phi) {
+					okStep = false
+					break
+				}
+				c, ok := constInt(add.Y)
+				if !ok || c <= 0 {
+					okStep = false
+				}
+			}
+			if okStep && nBack > 0 {
+				return "counted loop: induction variable advances by a positive constant towards a bound fixed before the loop", true
+			}
+		}
+	}
+	return "", false
+}
+
+// minWireSize: a lower bound on the number of bytes decode consumes for a target of static type t (pointer to …).
+func minWireSize(t types.Type, depth int) int64 {
+	if depth > 4 {
+		return 0
+	}
+	if p, ok := t.Underlying().(*types.Pointer); ok {
+		t = p.Elem()
+	}
+	switch u := t.Underlying().(type) {
+	case *types.Basic:
+		switch u.Kind() {
+		case types.Uint8, types.Int8, types.Bool:
+			return 1
+		case types.Uint16, types.Int16:
+			return 2
+		case types.Uint32, types.Int32:
+			return 4
+		case types.Uint64, types.Int64:
+			return 8
+		case types.String:
+			return 2
+		}
+	case *types.Slice:
+		return 2 // count or length prefix (at least the 2-byte form)
+	case *types.Struct:
+		var n int64
+		for i := 0; i < u.NumFields(); i++ {
+			n += minWireSize(u.Field(i).Type(), depth+1)
+		}
+		return n
+	}
+	return 0
+}
+
+// consumingLoop: a call that consumes >= 1 byte or fails executes on every iteration and its failure leaves the loop.
+func consumingLoop(p *Prog, h *ssa.BasicBlock, body map[*ssa.BasicBlock]bool) (string, bool) {
+	var backSrc []*ssa.BasicBlock
+	for _, pr := range h.Preds {
+		if pr == h || h.Dominates(pr) {
+			backSrc = append(backSrc, pr)
+		}
+	}
+	for b := range body {
+		for _, in := range b.Instrs {
+			c, ok := in.(*ssa.Call)
+			if !ok {
+				continue
+			}
+			consumes := false
+			switch calleeName(&c.Call) {
+			case "(*p9p.decoder).decode":
+				for _, a := range varargsElems(c.Call.Args[len(c.Call.Args)-1]) {
+					if minWireSize(stripConv(a).Type(), 0) >= 1 {
+						consumes = true
+					}
+				}
+			case "encoding/binary.Read":
+				if minWireSize(stripConv(c.Call.Args[2]).Type(), 0) >= 1 {
+					consumes = true
+				}
+			}
+			if !consumes {
+				continue
+			}
+			// executed on every iteration
+			every := true
+			for _, bs := range backSrc {
+				if !(c.Block() == bs || c.Block().Dominates(bs)) {
+					every = false
+				}
+			}
+			if !every {
+				continue
+			}
+			// the failure edge leaves the loop: every block of the loop reachable under err != nil … is none
+			e := errResult(c)
+			if e == nil {
+				continue
+			}
+			leaves := true
+			for bb := range body {
+				if len(bb.Instrs) == 0 {
+					continue
+				}
+				// a block inside the loop that continues to the header while the error is known non-nil
+				for _, s := range bb.Succs {
+					if s == h && knownNonNilAt(e, bb.Instrs[len(bb.Instrs)-1]) {
+						leaves = false
+					}
+				}
+			}
+			// and the back edges are taken only where the error is known nil
+			for _, bs := range backSrc {
+				if !knownNilAt(e, bs.Instrs[len(bs.Instrs)-1]) {
+					leaves = false
+				}
+			}
+			if leaves {
+				return "every iteration calls " + calleeName(&c.Call) + " on a target of wire size >= 1 and continues only when it succeeded: iterations <= input length", true
+			}
+		}
+	}
+	return "", false
 }
